@@ -5,6 +5,7 @@ from ..guards import guards
 from ..term import walk
 from ..rules_dep import run_dep
 from .c08 import pipeline as civil_pipeline
+from ..rules_signpair import run_signpair
 
 SELF = ("param", 1, "self")
 
@@ -22,6 +23,8 @@ def run(ctx, rep):
     # "months/years clamp the day of month": the calendar step of zoned addition is Date::checked_add_span, whose own
     # pipeline (one clamp against the target month, after years and months were combined) is rule CIVIL-PIPELINE
     civil_pipeline(rep, prog, rule="CIVIL-PIPELINE")
+    # the exact-time step of zoned arithmetic is Timestamp arithmetic: the instant it returns must be a well-formed pair
+    run_signpair(ctx, rep, select=lambda f: f.file in ("src/timestamp.rs", "src/zoned.rs"), floor=5)
     rep.rule("PIPELINE", "Zoned::checked_add_span is, on the non-shortcut Ok path, exactly: c = span.only_calendar(); "
                          "dt = self.datetime().checked_add(c)?; ts = tz.to_ambiguous_timestamp(dt).compatible()?; "
                          "ts' = ts.checked_add(span.only_time())?; Ok(ts'.to_zoned(tz.clone())) with tz = self.time_zone(); the shortcut "
